@@ -48,6 +48,7 @@ Section C01.
     In (from, tp) shifts8 -> In (k_func c) ops4 -> op_fun o ofZ (k_func c) = Some f ->
     lookupP from (ax_coords a) = Some din -> dhas din (dims t) = true ->
     lookupP tp (ax_coords a) = Some dout ->
+    words_known (complete_kwargs g (@ax_boundary A) (k_boundary c)) = true ->
     (forall lo hi,
         resolve_one (zero o) g (dnames (dims t))
                     (complete_kwargs g (@ax_boundary A) (k_boundary c))
